@@ -59,8 +59,8 @@ ValsetEvents(s) ==
 Plans(s) ==
   {[type |-> "RegisterPlan", id |-> 1, height |-> h, op |-> o, key |-> k, execs |-> x] :
       h \in {s.height + 1, s.height + 2} \cap 1..MaxH, o \in {"v1", "v3"}, k \in {"k1", "k3"}, x \in {<<"e2">>, <<"e2", "e3">>}}
-  \cup {[type |-> "RegisterPlan", id |-> 1, height |-> h, op |-> "v3", key |-> "k3", execs |-> <<"e2", "e2">>] :       \* the same executor named twice
-      h \in {s.height + 1} \cap 1..MaxH}
+  \cup {[type |-> "RegisterPlan", id |-> 1, height |-> h, op |-> "v3", key |-> "k3", execs |-> x] :       \* the same executor named twice; an executor spelled in upper case
+      h \in {s.height + 1} \cap 1..MaxH, x \in {<<"e2", "e2">>, <<"up:e2">>}}
   \cup {[type |-> "RegisterPlan", id |-> i, height |-> h, op |-> o, key |-> k, execs |-> x] :
       i \in {0, 1}, h \in {0, s.height + 1}, o \in {"v3", "bad:notbech32"}, k \in {"k3", "nil"}, x \in {<<"e2">>, <<"bad:notbech32">>}}
 PlanEvents(s) ==
@@ -69,6 +69,7 @@ PlanEvents(s) ==
   ELSE Blocks(s)
        \cup (IF s.phase = "in" THEN Adds({"opchild"}, {"v1", "v2"}, {"k1", "k2"}) \cup Removes({"opchild"}, {"v1"}) ELSE {})
        \cup (IF Cardinality(DOMAIN s.plans) < 1 THEN Plans(s) ELSE {})
+       \cup (IF s.phase = "out" THEN {[type |-> "ExecProbe", signer |-> a] : a \in {"e1", "e2"}} ELSE {})     \* does the account hold the executor role now?
 
 Events(s) == CASE Fam = "valset" -> ValsetEvents(s) [] Fam = "plan" -> PlanEvents(s)
 
